@@ -363,7 +363,7 @@ func (p *Pop) mutate(op string) {
 			o.MaxVal = 4<<16 - 1
 		}
 		if p.mode.RunBias {
-			o.OnlyOps = []string{"AddRange", "RemoveRange", "Flip", "Remove", "Add", "RunOptimize", "CheckedRemove"}
+			o.OnlyOps = []string{"AddRange", "RemoveRange", "Flip", "Remove", "Add", "RunOptimize", "CheckedRemove", "TrimEnds"}
 		}
 		p.lastOp = mutateStep(c, X, o)
 	case "IAnd", "IOr", "IXor", "IAndNot":
